@@ -253,6 +253,10 @@ def run(prog, rep):
     good = len(rets) == 1 and unparse(rets[0]) == "self.rank == LABEL_ERROR"
     rep.check(good, "RANK-0", "ValidationError.is_error", "self.rank == LABEL_ERROR",
               "is_error is computed as %s" % [unparse(r) for r in rets], ie.where)
+    from ..report import import_verdicts
+    import_verdicts(prog, rep, "C17", ("SINK-1",), "SINK-1",
+                    "a failed save leaves a file that was already there as it was: nothing in the package removes, renames or truncates a file "
+                    "outside the reviewed write sites - a clean-up that deletes the target after a failure deletes the earlier content too")
     rep.assume("warnings.warn does not raise under the default warning filters; it precedes every write anyway (ORDER-6)")
     rep.assume("file.write of an already rendered text only fails for I/O reasons")
 
